@@ -27,7 +27,7 @@ from ..tlaval import dump_chunks, parse, parse_state, read_dump
 
 BOUNDS = {
     "quick": dict(bases=5, maxpos=40, soup=3, chains=False, nest="{40, 150, 1200}", tables_every=3),
-    "thorough": dict(bases=12, maxpos=160, soup=4, chains=True, nest="{40, 150, 400, 1200, 3000}", tables_every=1),
+    "thorough": dict(bases=8, maxpos=80, soup=3, chains=True, nest="{40, 150, 400, 1200, 3000}", tables_every=2),
 }
 POSOPS = '{"Prefix", "Suffix", "CutChars", "DelLine", "DupLine", "SwapLines", "DelToken", "DupToken", "SwapTokens", "BreakLine", "JoinLines", "OddSpace", "Flatten"}'
 
@@ -319,7 +319,7 @@ def run_generic(prop: str, tier: str) -> int:
     muts = [(st["base"], [dict(o) for o in st["ops"]]) for st in read_dump(m.dump)]
     states, trans = m.distinct + pm.distinct, m.transitions + pm.transitions
     if b["chains"]:
-        c2 = dict(consts, MaxPos=5, MaxOps=2, OpKinds=POSOPS.replace("}", ', "Bytes"}'), MaxSoup=1)
+        c2 = dict(consts, MaxPos=3, MaxOps=2, OpKinds=POSOPS.replace("}", ', "Bytes"}'), MaxSoup=1)
         m2 = tlc.run("Mutations", tlc.cfg(c2, spec="Spec", invariants=["ChainBounded"]), wd, dump=True, cfgname="Mutations_chains.cfg")
         muts += [(st["base"], [dict(o) for o in st["ops"]]) for st in read_dump(m2.dump) if len(st["ops"]) == 2]
         states += m2.distinct
